@@ -308,3 +308,102 @@ _tfound = ck.parallel([TRI_GRAPHS[i::8] for i in range(8)], lambda chunk: sum(tr
 if not sum(f or 0 for f in _tfound):
     ck.inconclusive.append('P4 vacuous: count_triangles never returned')
 ck.functions += ['GraphEngine::count_triangles']
+
+# ------------------------------------------------------------------ P5: find_weighted_path returns a cheapest directed walk
+# Dijkstra's search from MIR on the graph model, with BinaryHeap as a sequence whose pop selects a maximum by calling
+# <DijkstraEntry as Ord>::cmp from MIR (O1-O3 decide that order).  Edge weights are symbolic f64 taken from a small set of exactly
+# representable values (so that sums along a walk are exact and the reference minimum is well defined); from / to symbolic.
+WVALS = [0.0, 1.0, 2.0] if T == 'quick' else [0.0, 1.0, 2.0, 4.0]
+WGRAPHS = [[(0, 1)], [(0, 1), (0, 1)], [(0, 1), (1, 2)], [(0, 1), (1, 2), (0, 2)], [(0, 2), (0, 1), (1, 2)], [(1, 0), (1, 2), (0, 2)]] + ([[(0, 1), (1, 0), (1, 2)], [(0, 1), (1, 2), (2, 0)], [(0, 1), (0, 1), (1, 2)]] if T != 'quick' else [])
+ck.bounds['find_weighted_path'] = f'{len(WGRAPHS)} edge multisets over 3 nodes x direction flags; every weight symbolic in {WVALS}; from / to symbolic'
+ck.declare('P5_weighted_path_is_a_cheapest_directed_walk', f'find_weighted_path(from, to, "weight") on {len(WGRAPHS)} edge multisets x direction flags, weights symbolic in {WVALS}',
+           'Ok(path) => a directed walk from `from` to `to` along the listed edges whose weights add up to total_weight, and no walk is cheaper; PathNotFound => no directed walk')
+
+
+def wpath_case(case):
+    es, dirs = case
+    st = ex.new_state()
+    G = Graph(st, 3, es, concrete=True)
+    ws = [z3.FP(f'w{j}', z3.Float64()) for j in range(len(es))]
+    for j, w_ in enumerate(ws):
+        st.assume(z3.Or([w_ == z3.FPVal(x, z3.Float64()) for x in WVALS]))
+        rec_ = G.vals[3 + j].fields['f']
+        rec_.keys.append(Str(text='weight'))
+        rec_.vals.append(tv_float(w_))
+    G.add_lists(st, dirs)
+    ge = engine(st)
+    a1, a2 = z3.BitVec('arg1', 64), z3.BitVec('arg2', 64)
+    for s_ in (a1, a2):
+        st.assume(z3.Or([s_ == n for n in G.nid]))
+    res = run(st, 'GraphEngine::find_weighted_path', [ref(ge), Int(a1, False), Int(a2, False), Str(text='weight')])
+    ck.note_path_problem(res, f'find_weighted_path edges={es} dirs={dirs}')
+    # every simple directed walk s -> t as a list of edge indices (weights >= 0: a cheapest walk can be taken simple)
+    def walks(s, t):
+        out = []
+
+        def go(cur, seen, edges):
+            if cur == t and edges:
+                out.append(list(edges))
+                return
+            for j, (a, b) in enumerate(es):
+                for (x, y) in ([(a, b)] if dirs[j] or a == b else [(a, b), (b, a)]):
+                    if x == cur and y not in seen:
+                        go(y, seen | {y}, edges + [j])
+        go(s, {s}, [])
+        return out
+    fsum = lambda js: functools.reduce(lambda acc, j: z3.fpAdd(z3.RNE(), acc, ws[j]), js, z3.FPVal(0.0, z3.Float64()))
+    n_ok = 0
+    for r in res:
+        wit = lambda m, G=G: {'graph_call': 'find_weighted_path', 'nodes': [mval(m, x) for x in G.nid], 'edges': [[a, b, mval(m, G.eid[j]), dirs[j]] for j, (a, b) in enumerate(es)],
+                              'weight_bits': [mval(m, z3.fpToIEEEBV(w_)) for w_ in ws], 'arg1': mval(m, a1), 'arg2': mval(m, a2)}
+        if r.status == 'panic':
+            ck.require(ex, 'P5_weighted_path_is_a_cheapest_directed_walk', r.pc, None, z3.BoolVal(False), wit, lambda m, w: 'weighted-path-panic')
+            continue
+        if r.status != 'return':
+            continue
+        rv = r.retval
+        cs = []
+        if rv.variant == 'Err':
+            e = rv.fields[('Err', 0)]
+            for s_ in range(3):
+                for t_ in range(3):
+                    here = z3.And(a1 == G.nid[s_], a2 == G.nid[t_])
+                    cs.append(z3.Implies(here, z3.BoolVal(e.variant == 'PathNotFound' and s_ != t_ and not walks(s_, t_))))
+            ck.require(ex, 'P5_weighted_path_is_a_cheapest_directed_walk', r.pc, None, z3.And(cs), wit, lambda m, w: 'weighted-path-refused')
+            continue
+        n_ok += 1
+        p = rv.fields[('Ok', 0)]
+        nodes = [x.v for x in p.load(F('WeightedPath', 'nodes'), None, r.st).items(r.st)]
+        edges = [x.v for x in p.load(F('WeightedPath', 'edges'), None, r.st).items(r.st)]
+        total = p.load(F('WeightedPath', 'total_weight'), None, r.st).v
+        cs.append(z3.BoolVal(len(nodes) == len(edges) + 1 and len(nodes) >= 1))
+        if nodes:
+            cs += [nodes[0] == a1, nodes[-1] == a2]
+        acc = z3.FPVal(0.0, z3.Float64())
+        for i in range(min(len(edges), len(nodes) - 1)):
+            alts, wsel = [], z3.FPVal(0.0, z3.Float64())
+            for j, (a, b) in enumerate(es):
+                fwd = z3.And(nodes[i] == G.nid[a], nodes[i + 1] == G.nid[b])
+                back = z3.And(nodes[i] == G.nid[b], nodes[i + 1] == G.nid[a]) if not dirs[j] else z3.BoolVal(False)
+                alts.append(z3.And(edges[i] == G.eid[j], z3.Or(fwd, back)))
+                wsel = z3.If(edges[i] == G.eid[j], ws[j], wsel)
+            cs.append(z3.Or(alts) if alts else z3.BoolVal(False))
+            acc = z3.fpAdd(z3.RNE(), acc, wsel)
+        cs.append(z3.fpEQ(total, acc))
+        for s_ in range(3):
+            for t_ in range(3):
+                here = z3.And(a1 == G.nid[s_], a2 == G.nid[t_])
+                if s_ == t_:
+                    cs.append(z3.Implies(here, z3.BoolVal(len(edges) == 0)))
+                else:
+                    cs += [z3.Implies(here, z3.fpLEQ(total, fsum(js))) for js in walks(s_, t_)]
+        ck.require(ex, 'P5_weighted_path_is_a_cheapest_directed_walk', r.pc, None, z3.And(cs), wit, lambda m, w: 'weighted-path-not-cheapest')
+    return n_ok
+
+
+import functools
+_wcases = [(es, dirs) for es in WGRAPHS for dirs in itertools.product((True, False), repeat=len(es))]
+_wfound = ck.parallel([_wcases[i::8] for i in range(8)], lambda chunk: sum(wpath_case(c) for c in chunk), jobs=8 if T != 'quick' else 4)
+if not sum(f or 0 for f in _wfound):
+    ck.inconclusive.append('P5 vacuous: find_weighted_path never returned a path')
+ck.functions += ['GraphEngine::find_weighted_path', 'GraphEngine::reconstruct_weighted_path', 'GraphEngine::extract_edge_weight']
